@@ -307,6 +307,9 @@ var cnQueries = []string{
 	"query D { items { id name } n pet { ... on CnCat { lives } } }",
 	"query E { flaky n }",
 	"query F { n box { m } }",
+	// a client may alias any field as __key (finding C15-6: a list there made the first re-run's diff panic and took
+	// the process down)
+	"query G { __key: items { id name } n }",
 }
 
 // ---- fake socket -------------------------------------------------------------------------------------
